@@ -124,8 +124,8 @@ Contexts ==
                    Tk("FixedDurationTask", "T1", FALSE), Tk("FixedDurationTask", "T2", TRUE),
                    Tk("ZeroDurationTask", "T3", TRUE),
                    [kind |-> "worker", name |-> "W1"], [kind |-> "worker", name |-> "W2"], [kind |-> "worker", name |-> "W3"],
-                   [kind |-> "cumulative", name |-> "CW", size |-> 2],
-                   [kind |-> "cumulative", name |-> "CW2", size |-> 2],
+                   [kind |-> "cumulative", name |-> "CW", size |-> 2, cost2 |-> 0, productivity |-> 1],
+                   [kind |-> "cumulative", name |-> "CW2", size |-> 2, cost2 |-> 0, productivity |-> 1],
                    [kind |-> "require", task |-> "T1", resource |-> "W1"],
                    [kind |-> "require", task |-> "T2", resource |-> "W1"],
                    [kind |-> "require", task |-> "T1", resource |-> "W3"],
@@ -133,6 +133,8 @@ Contexts ==
                    [kind |-> "select", name |-> "S1", workers |-> <<"W1", "W2">>, n |-> 1],
                    [kind |-> "constraint", cls |-> "TaskStartAt", name |-> "K1", task |-> "T1", optional |-> TRUE],
                    [kind |-> "constraint", cls |-> "TaskStartAt", name |-> "K2", task |-> "T2", optional |-> FALSE],
+                   \* K2 becomes the operand of a connective: it is still a constraint of the problem, its name stays taken
+                   [kind |-> "constraint", cls |-> "Not", name |-> "N1", operand |-> "K2", optional |-> FALSE],
                    [kind |-> "indicator", name |-> "I1"],
                    [kind |-> "buffer", name |-> "B1"] >> ]
 
@@ -147,13 +149,17 @@ ReducedTaskProbes ==  \* parameters a class does not have are left at their neut
   { o \in TaskProbes : /\ (o.cls # "FixedDurationTask" => o.duration = 1)
                        /\ (o.cls # "VariableDurationTask" => o.min_duration = 0) }
 WorkerProbes == { [kind |-> "worker", name |-> n] : n \in {"New", "W1", "T1", "CW_CumulativeWorker_1", "CW"} }
-CumulativeProbes == { [kind |-> "cumulative", name |-> n, size |-> s] : n \in {"New", "CW", "W1"}, s \in {-1, 0, 1, 2, 3} }
+\* cost2 = twice the constant cost per period (0: no cost given); a fractional cost is legal (the documentation only
+\* warns about the results), as is any productivity >= 0
+CumulativeProbes == { [kind |-> "cumulative", name |-> n, size |-> s, cost2 |-> c2, productivity |-> pr] :
+                        n \in {"New", "CW", "W1"}, s \in {-1, 0, 1, 2, 3}, c2 \in {0, 5, 6, 1}, pr \in {1, 5} }
 SelectProbes == { [kind |-> "select", name |-> n, workers |-> ws, n |-> k] :
                     n \in {"New", "S1"}, ws \in {<<>>, <<"W1">>, <<"W1", "W2">>, <<"W1", "W2", "W3">>, <<"CW", "W1">>, <<"CW", "CW2">>, <<"CW">>},
                     k \in {1, 2, 3, 4} }
 ConstraintProbes ==
   { [kind |-> "constraint", cls |-> c, name |-> n, task |-> t, optional |-> FALSE] :
-      c \in {"OptionalTaskForceSchedule", "OptionalTaskConditionSchedule", "TaskStartAt"}, n \in {"New", "K1"}, t \in {"T1", "T2", "T3"} }
+      c \in {"OptionalTaskForceSchedule", "OptionalTaskConditionSchedule", "TaskStartAt"}, n \in {"New", "K1", "K2", "N1"}, t \in {"T1", "T2", "T3"} }
+  \cup { [kind |-> "constraint", cls |-> "Not", name |-> n, operand |-> k, optional |-> FALSE] : n \in {"New", "K1", "K2"}, k \in {"K1", "K2"} }
   \cup { [kind |-> "constraint", cls |-> "OptionalTasksDependency", name |-> "New", task1 |-> a, task2 |-> b, optional |-> FALSE] :
            a \in {"T1", "T2"}, b \in {"T1", "T2", "T3"} }
   \cup { [kind |-> "constraint", cls |-> "ForceScheduleNOptionalTasks", name |-> "New", tasks |-> ts, optional |-> FALSE] :
@@ -169,7 +175,7 @@ OtherProbes == { [kind |-> k, name |-> n] : k \in {"indicator", "buffer"}, n \in
 Probes == ReducedTaskProbes \cup WorkerProbes \cup CumulativeProbes \cup SelectProbes \cup ConstraintProbes \cup OtherProbes
 \* before any problem exists only the bare creation of each kind of element is probed
 BareProbes == { o \in Probes : o.name = "New" /\ (o.kind = "task" => (o.duration = 1 /\ o.work_amount = 0 /\ o.priority = 1 /\ o.min_duration = 0 /\ ~o.optional))
-                               /\ (o.kind = "cumulative" => o.size = 2) /\ (o.kind = "select" => FALSE)
+                               /\ (o.kind = "cumulative" => o.size = 2 /\ o.cost2 = 0 /\ o.productivity = 1) /\ (o.kind = "select" => FALSE)
                                /\ (o.kind = "constraint" => FALSE) }
 
 ---------------------------------------------------------------------------
